@@ -426,6 +426,16 @@ def run(ctx, idx):
         in_handler = {id(x) for t_ in ast.walk(r_.node) if isinstance(t_, ast.Try) and any(isinstance(c_, ast.Call) and K.src(c_.func) in ("int", "float") for b_ in t_.body for c_ in ast.walk(b_))
                       for h_ in t_.handlers for x in ast.walk(h_)}
         loose = [x for x in ast.walk(r_.node) if isinstance(x, ast.Raise) and id(x) not in in_handler]
+        if loose:
+            g_ = K.int_length_guard(r_.node)
+            mine = g_ is not None and all(any(x is y for b_ in g_[1].body for y in ast.walk(b_)) for x in loose)
+            if mine and g_[0] == "exact":
+                ctx.hold("C10.n", "%s::%s::refused-only-by-the-conversion" % (rel, r_.name), rel, g_[1].lineno, "the length test in front of int() is int()'s own: digits without the sign against sys.get_int_max_str_digits(), skipped when that is 0")
+                continue
+            if mine and g_[0] == "wrong":
+                ctx.violate("C10.n", "%s::%s::refused-only-by-the-conversion" % (rel, r_.name), rel, g_[1].lineno, "`%s` refuses a number on a test of its own: %s" % (K.src(g_[1].test)[:60], g_[2]))
+                continue
+            raise AnalysisError("C10.n: %s raises on a test of its own (`%s`) beside the conversion; whether that test agrees with %s() is not decided" % (r_.name, K.src(loose[0])[:40], "int" if r_ is ri else "float"))
         ctx.ob("C10.n", "%s::%s::refused-only-by-the-conversion" % (rel, r_.name), rel, loose[0].lineno if loose else r_.node.lineno, not loose, "no raise outside the handler of the conversion" if not loose else
                "`%s` refuses a number on a test of its own, outside the handler of the conversion: where that test and %s() disagree (a sign counted as a digit, a digit limit that is switched off and reads 0) a literal Python converts is a syntax error" % (K.src(loose[0])[:60], "int" if r_ is ri else "float"))
     # ------------------------------------------------------------------ d
